@@ -323,6 +323,7 @@ var integer64 = []*instructionType{
 		opcode:       opcodeShiftImm(false, 6, 0b001, 0b0010011),
 		inputRegCnt:  1,
 		hasOutputReg: true,
+		immediate:    immTypeShamt,
 		effects: func(i instruction) []expr.Effect {
 			val := regImmShift(binOpFunc(expr.Lsh), i, 6, width64)
 			return []expr.Effect{regStore(val, i, width64)}
@@ -332,6 +333,7 @@ var integer64 = []*instructionType{
 		opcode:       opcodeShiftImm(false, 6, 0b101, 0b0010011),
 		inputRegCnt:  1,
 		hasOutputReg: true,
+		immediate:    immTypeShamt,
 		effects: func(i instruction) []expr.Effect {
 			val := regImmShift(binOpFunc(expr.Rsh), i, 6, width64)
 			return []expr.Effect{regStore(val, i, width64)}
@@ -341,6 +343,7 @@ var integer64 = []*instructionType{
 		opcode:       opcodeShiftImm(true, 6, 0b101, 0b0010011),
 		inputRegCnt:  1,
 		hasOutputReg: true,
+		immediate:    immTypeShamt,
 		effects: func(i instruction) []expr.Effect {
 			val := regImmShift(exprtools.RshA, i, 6, width64)
 			return []expr.Effect{regStore(val, i, width64)}
@@ -547,6 +550,7 @@ var integer64 = []*instructionType{
 		inputRegCnt:  0,
 		hasOutputReg: true,
 		immediate:    immTypeI,
+		rs1Imm:       true,
 		instrType:    model.TypeCPUStateChange,
 		effects: func(i instruction) []expr.Effect {
 			key := csrKey(i)
@@ -561,6 +565,7 @@ var integer64 = []*instructionType{
 		inputRegCnt:  0,
 		hasOutputReg: true,
 		immediate:    immTypeI,
+		rs1Imm:       true,
 		instrType:    model.TypeCPUStateChange,
 		effects: func(i instruction) []expr.Effect {
 			key := csrKey(i)
@@ -577,6 +582,7 @@ var integer64 = []*instructionType{
 		inputRegCnt:  0,
 		hasOutputReg: true,
 		immediate:    immTypeI,
+		rs1Imm:       true,
 		instrType:    model.TypeCPUStateChange,
 		effects: func(i instruction) []expr.Effect {
 			key := csrKey(i)
@@ -606,6 +612,7 @@ var integer64 = []*instructionType{
 		opcode:       opcodeShiftImm(false, 5, 0b001, 0b0011011),
 		inputRegCnt:  1,
 		hasOutputReg: true,
+		immediate:    immTypeShamt,
 		effects: func(i instruction) []expr.Effect {
 			val := sext32To64(regImmShift(binOpFunc(expr.Lsh), i, 5, width32))
 			return []expr.Effect{regStore(val, i, width64)}
@@ -615,6 +622,7 @@ var integer64 = []*instructionType{
 		opcode:       opcodeShiftImm(false, 5, 0b101, 0b0011011),
 		inputRegCnt:  1,
 		hasOutputReg: true,
+		immediate:    immTypeShamt,
 		effects: func(i instruction) []expr.Effect {
 			val := sext32To64(regImmShift(binOpFunc(expr.Rsh), i, 5, width32))
 			return []expr.Effect{regStore(val, i, width64)}
@@ -624,6 +632,7 @@ var integer64 = []*instructionType{
 		opcode:       opcodeShiftImm(true, 5, 0b101, 0b0011011),
 		inputRegCnt:  1,
 		hasOutputReg: true,
+		immediate:    immTypeShamt,
 		effects: func(i instruction) []expr.Effect {
 			val := sext32To64(regImmShift(exprtools.RshA, i, 5, width32))
 			return []expr.Effect{regStore(val, i, width64)}
